@@ -3,7 +3,9 @@
 package transport
 
 import (
+	"context"
 	"testing"
+	"time"
 
 	"golang.org/x/net/http2"
 	"google.golang.org/grpc/mem"
@@ -35,6 +37,10 @@ type vInFlowSim struct {
 	updateFlowControl func(uint32)
 	iws               func() uint32
 	alive             func() bool
+	begin             func() bool // starts a NewStream that blocks on the stream quota
+	release           func()      // makes quota available; the HEADERS of a new stream are queued
+	sid               uint32      // stream the DATA frames are addressed to
+	stop              func()      // releases a NewStream call that is still parked
 }
 
 // cfg = [stream window, connection window] (server) or [.., .., side] with side 1 = client.
@@ -61,11 +67,80 @@ func vInFlowNew(cfg []int64) *vInFlowSim {
 		}
 		s.Stream.buf.init(pool)
 		t.activeStreams[1] = s
-		return &vInFlowSim{cb: t.controlBuf, tfc: t.fc, sfc: &s.fc, done: done, client: true,
+		// what the real NewStream path needs: its own context, the quota bookkeeping, stream ids
+		t.ctx = context.Background()
+		nsCtx, nsCancel := context.WithCancel(context.Background())
+		t.nextID = 3
+		t.streamQuota = 0 // MAX_CONCURRENT_STREAMS reached
+		t.streamsQuotaAvailable = make(chan struct{}, 1)
+		m := &vInFlowSim{cb: t.controlBuf, tfc: t.fc, sfc: &s.fc, done: done, client: true, sid: 1,
 			handleData: t.handleData, requestRead: s.requestRead, updateWindow: s.updateWindow,
 			updateFlowControl: t.updateFlowControl,
-			iws:               func() uint32 { return uint32(t.initialWindowSize) },
-			alive:             func() bool { return t.activeStreams[1] != nil }}
+			iws: func() uint32 { return uint32(t.initialWindowSize) }}
+		cur := s
+		m.alive = func() bool { return t.activeStreams[cur.id] == cur }
+		var pending chan *ClientStream
+		start := func() {
+			pending = make(chan *ClientStream, 1)
+			ch := pending
+			go func() {
+				ns, err := t.NewStream(nsCtx, &CallHdr{Host: "verif", Method: "/verif/InFlow"}, nil)
+				if err != nil {
+					ch <- nil
+					return
+				}
+				ch <- ns
+			}()
+		}
+		m.begin = func() bool {
+			if pending != nil {
+				return false
+			}
+			// MAX_CONCURRENT_STREAMS is reached (a closed stream may have given quota back)
+			t.controlBuf.executeAndPut(func() bool { t.streamQuota = 0; return true }, nil)
+			start()
+			// wait until the call is parked on the stream quota (as the seeded demo does)
+			for i := 0; i < 200000; i++ {
+				w := 0
+				t.controlBuf.executeAndPut(func() bool { w = int(t.waitingStreams); return true }, nil)
+				if w > 0 {
+					return true
+				}
+				time.Sleep(50 * time.Microsecond)
+			}
+			panic("verif: NewStream did not block on the stream quota")
+		}
+		m.release = func() {
+			// what handleSettings / closeStream do when quota becomes available
+			t.controlBuf.executeAndPut(func() bool {
+				t.streamQuota = 1
+				if t.streamQuota > 0 && t.waitingStreams > 0 {
+					select {
+					case t.streamsQuotaAvailable <- struct{}{}:
+					default:
+					}
+				}
+				return true
+			}, nil)
+			if pending == nil {
+				start()
+			}
+			var ns *ClientStream
+			select {
+			case ns = <-pending:
+			case <-time.After(30 * time.Second):
+				panic("verif: NewStream did not return after quota was released")
+			}
+			pending = nil
+			if ns == nil {
+				panic("verif: NewStream failed")
+			}
+			cur = ns
+			m.sid, m.sfc = ns.id, &ns.fc
+			m.requestRead, m.updateWindow = ns.requestRead, ns.updateWindow
+		}
+		m.stop = nsCancel
+		return m
 	}
 	t := &http2Server{
 		done:              done,
@@ -82,11 +157,39 @@ func vInFlowNew(cfg []int64) *vInFlowSim {
 	}
 	s.Stream.buf.init(pool)
 	t.activeStreams[1] = s
-	return &vInFlowSim{cb: t.controlBuf, tfc: t.fc, sfc: &s.fc, done: done,
+	m := &vInFlowSim{cb: t.controlBuf, tfc: t.fc, sfc: &s.fc, done: done, sid: 1,
 		handleData: t.handleData, requestRead: s.requestRead, updateWindow: s.updateWindow,
 		updateFlowControl: t.updateFlowControl,
-		iws:               func() uint32 { return uint32(t.initialWindowSize) },
-		alive:             func() bool { _, ok := t.activeStreams[1]; return ok }}
+		iws: func() uint32 { return uint32(t.initialWindowSize) }}
+	cur := s
+	m.alive = func() bool { return t.activeStreams[cur.id] == cur }
+	began := false
+	m.begin = func() bool {
+		if began {
+			return false
+		}
+		began = true
+		return true
+	}
+	m.release = func() {
+		// server side: what operateHeaders does for a new stream (fc from t.initialWindowSize);
+		// replicated here, the real NewStream path is exercised on the client side only
+		began = false
+		ns := &ServerStream{
+			Stream: Stream{id: cur.id + 2, fc: inFlow{limit: uint32(t.initialWindowSize)}},
+			st:     t,
+			cancel: func() {},
+		}
+		ns.Stream.buf.init(pool)
+		t.mu.Lock()
+		t.activeStreams[ns.id] = ns
+		t.mu.Unlock()
+		cur = ns
+		m.sid, m.sfc = ns.id, &ns.fc
+		m.requestRead, m.updateWindow = ns.requestRead, ns.updateWindow
+	}
+	m.stop = func() {}
+	return m
 }
 
 // drain empties the control buffer and classifies what the loopy writer would send.
@@ -148,7 +251,7 @@ func (m *vInFlowSim) apply(op []int64) []int64 {
 		// in the stream's recvBuffer, which this driver never reads)
 		payload := vInFlowZeros[:dataLen]
 		f := &parsedDataFrame{
-			FrameHeader: http2.FrameHeader{Type: http2.FrameData, Length: size, StreamID: 1},
+			FrameHeader: http2.FrameHeader{Type: http2.FrameData, Length: size, StreamID: m.sid},
 			data:        mem.SliceBuffer(payload),
 		}
 		if pad > 0 {
@@ -178,6 +281,14 @@ func (m *vInFlowSim) apply(op []int64) []int64 {
 	case op[0] == 5 && len(op) == 1:
 		w := m.tfc.reset()
 		return vCat([]int64{int64(w)}, m.snap())
+	case op[0] == 6 && len(op) == 1:
+		m.begin()
+		m.drain()
+		return vCat([]int64{0}, m.snap())
+	case op[0] == 7 && len(op) == 1:
+		m.release()
+		m.drain()
+		return vCat([]int64{1}, m.snap())
 	}
 	return nil
 }
@@ -185,6 +296,7 @@ func (m *vInFlowSim) apply(op []int64) []int64 {
 func vInFlowExec(cfg []int64, ops [][]int64) ([][]int64, bool, []string) {
 	m := vInFlowNew(cfg)
 	defer close(m.done)
+	defer m.stop()
 	var obs [][]int64
 	nt := false
 	tag := map[string]bool{}
@@ -224,7 +336,7 @@ type vInFlowGenState struct {
 	m            *vInFlowSim
 	ops          [][]int64
 	adv, rcvd    int64 // stream window given to the peer / used by it
-	lim          int64
+	lim, siw     int64 // stream limit the shadow believes; SETTINGS_INITIAL_WINDOW_SIZE the peer knows
 	unread, want int64
 	dead         bool
 }
@@ -251,10 +363,16 @@ func (g *vInFlowGenState) do(op []int64) {
 		g.unread -= op[1]
 		g.want -= op[1]
 	case 4:
-		if !g.dead && len(o) > 2 && o[2] != 0 { // SETTINGS_INITIAL_WINDOW_SIZE = o[2] was sent
-			g.adv += o[2] - g.lim
-			g.lim = o[2]
+		if len(o) > 2 && o[2] != 0 { // SETTINGS_INITIAL_WINDOW_SIZE = o[2] was sent
+			if !g.dead {
+				g.adv += o[2] - g.lim
+				g.lim = o[2]
+			}
+			g.siw = o[2]
 		}
+	case 7:
+		// a new stream: the peer starts it with the initial window it knows
+		g.adv, g.rcvd, g.lim, g.unread, g.want, g.dead = g.siw, 0, g.siw, 0, 0, false
 	}
 }
 
@@ -293,6 +411,16 @@ func vInFlowGen(r *vRand, tier string, idx int) ([]int64, [][]int64) {
 		return []int64{65535, 1 << 20, 1}, [][]int64{{1, 16384, 0}, {4, 131070}, {1, 16384, 0}}
 	case 9:
 		return []int64{1 << 20, 65535, 1}, [][]int64{{1, 200000, 0}, {2, 200000}, {3, 200000}, {4, 131070}, {2, 5}, {5}}
+	case 10, 11:
+		// a NewStream parked on the stream quota while a BDP increase is announced: when its HEADERS
+		// are finally queued the stream must enforce the window the peer was told (131070), so a peer
+		// sending 7 x 16384 bytes before the application reads stays within it (client / server)
+		ops := [][]int64{{6}, {4, 131070}, {7}}
+		for i := 0; i < 7; i++ {
+			ops = append(ops, []int64{1, 16384, 0})
+		}
+		ops = append(ops, []int64{2, 114688}, []int64{3, 114688}, []int64{1, 16382, 0}, []int64{1, 1, 0})
+		return []int64{65535, 65535, int64(11 - idx)}, ops
 	case 6, 7:
 		// padding-only PADDED DATA frames (Length = 1 + padLen, no payload) on the client / server:
 		// the whole frame is charged by onData and must be credited back by the transport itself
@@ -324,8 +452,9 @@ func vInFlowGen(r *vRand, tier string, idx int) ([]int64, [][]int64) {
 	if idx%8 == 7 {
 		cfg[2] = int64((idx / 8) % 2)
 	}
-	g := &vInFlowGenState{m: vInFlowNew(cfg), adv: l, lim: l}
+	g := &vInFlowGenState{m: vInFlowNew(cfg), adv: l, lim: l, siw: l}
 	defer close(g.m.done)
+	defer g.m.stop()
 	nops := 120
 	if idx%8 == 7 {
 		// boundary / malformed stream: arbitrary values, app protocol not respected
@@ -423,7 +552,14 @@ func vInFlowGen(r *vRand, tier string, idx int) ([]int64, [][]int64) {
 				g.do([]int64{5})
 			}
 		default:
-			g.do([]int64{5})
+			switch r.Intn(4) {
+			case 0:
+				g.do([]int64{6})
+			case 1:
+				g.do([]int64{7})
+			default:
+				g.do([]int64{5})
+			}
 		}
 	}
 	return cfg, g.ops
